@@ -292,6 +292,7 @@ fn base_scenario(shape: u64) -> Scenario {
         strays: vec![],
         stateless_reset: true,
         rebinds: vec![],
+        attacks: vec![],
     }
 }
 
